@@ -115,7 +115,26 @@ class Lib(object):
             st.assume(Val.is_VSlice(z))
             yield st, SVal({"start": Val.sstart, "stop": Val.sstop, "step": Val.sstep}[name](z))
             return
+        if isinstance(o, SVal) and name not in ("decode", "encode", "startswith"):
+            for r in self.dyn_attr_event(engine, st, "GetAttr", o, name, node):
+                yield r
+            return
         yield st, self.sym_method(engine, o, name, node)
+
+    def dyn_attr_event(self, engine, st, kind, o, name, node, value=None):
+        """direct attribute access on a dynamic value: a ghost event (it may run arbitrary descriptor code)"""
+        self.used.add("%s on a dynamic object = one ghost event, any result, any exception" % kind)
+        ln = engine.rel_line(node)
+        nm = to_val(name)
+        for cls in [AnyException, AnyBaseException, AttributeError] + [c for c in engine.exc_universe() if c is not AttributeError]:
+            b = st.fork().label("L%d:%s raises %s" % (ln, kind, cls.__name__))
+            b.trace.append((kind, to_val(o), nm, "raise", value))
+            yield b, Raised(cls, ExcObj(cls, info={"dynamic": True}))
+        res = SVal(fresh("%s.result@L%d" % (kind, ln), Val)) if kind == "GetAttr" else None
+        if res is not None:
+            engine.type_invariants(st, [res])
+        st.trace.append((kind, to_val(o), nm, res.z if res is not None else None, value))
+        yield st, res
 
     def sym_method(self, engine, o, name, node):
         if isinstance(o, SComplex) and name in ("real", "imag"):
@@ -601,8 +620,25 @@ class Lib(object):
             lo, hi = (0, args[0]) if len(args) == 1 else args
             yield st, ops_SymRange(zint(lo), zint(hi))
             return
-        if f is isinstance and len(args) == 2:
+        if f is isinstance and len(args) == 2 and not (isinstance(args[0], SVal) and isinstance(args[1], type) and args[1] in TYPE_ID):
             yield st, self.isinstance_(args[0], args[1])
+            return
+        if f in (getattr, setattr, delattr) and args and isinstance(args[0], (SVal, SType)) and \
+                len(args) == {getattr: 2, setattr: 3, delattr: 2}[f]:
+            kind = {getattr: "GetAttr", setattr: "SetAttr", delattr: "DelAttr"}[f]
+            for r in self.dyn_attr_event(engine, st, kind, args[0], args[1], node,
+                                         value=to_val(args[2]) if f is setattr else None):
+                yield r
+            return
+        if f is isinstance and len(args) == 2 and isinstance(args[0], SVal) and isinstance(args[1], type) and \
+                args[1] in TYPE_ID:
+            self.used.add("isinstance(x, T): exact type T, or an instance of a subclass of T (a heap object)")
+            v = args[0].z
+            exact = typeof(v) == TYPE_ID[args[1]]
+            sub = z3.And(Val.is_VRef(v), self.spec.uf["subclass_inst"](Val.oid(v), TYPE_ID[args[1]]))
+            if args[1] is int:
+                exact = z3.Or(exact, Val.is_VBool(v))
+            yield st, b2v(z3.Or(exact, sub))
             return
         if f is hasattr and len(args) == 2 and (isinstance(args[0], SVal) or isinstance(args[0], SType)):
             self.used.add("hasattr(obj, name): a pure predicate of (object, name) - assumed free of side effects")
